@@ -38,8 +38,14 @@ pub enum Ev {
     Send { link: u8 },
     /// local close of a link; the peer answers after a quiescent point, optionally with an error
     Close { link: u8, with_error: bool, peer_err: bool },
-    /// local non-closing detach
-    Detach { link: u8, peer_err: bool },
+    /// local non-closing detach; `crossing`: the peer answers it with a *closing* detach, so the endpoint has
+    /// to re-attach and then close (spec 2.6.6)
+    Detach {
+        link: u8,
+        peer_err: bool,
+        #[serde(default)]
+        crossing: bool,
+    },
     DropLink { link: u8 },
     /// peer-initiated detach; afterwards the application performs its next operation on the link
     PeerDetach {
@@ -72,7 +78,7 @@ fn ev() -> BoxedStrategy<Ev> {
         3 => prop::bool::weighted(0.2).prop_map(|refuse| Ev::AttachReceiver { refuse }),
         4 => (0u8..4).prop_map(|link| Ev::Send { link }),
         3 => (0u8..4, any::<bool>(), any::<bool>()).prop_map(|(link, with_error, peer_err)| Ev::Close { link, with_error, peer_err }),
-        2 => (0u8..4, any::<bool>()).prop_map(|(link, peer_err)| Ev::Detach { link, peer_err }),
+        3 => (0u8..4, any::<bool>(), prop::bool::weighted(0.35)).prop_map(|(link, peer_err, crossing)| Ev::Detach { link, peer_err, crossing: crossing && !peer_err }),
         2 => (0u8..4).prop_map(|link| Ev::DropLink { link }),
         5 => (0u8..4, any::<bool>(), any::<bool>(), 0u8..4).prop_map(|(link, closed, err, then)| Ev::PeerDetach { link, closed, err, then }),
         1 => (0u8..4).prop_map(|link| Ev::CloseUnanswered { link }),
@@ -342,9 +348,10 @@ pub async fn run_async(c: &Case, kf_close_open: bool, excluded: &std::cell::Cell
             Ev::Close { .. } | Ev::Detach { .. } => {
                 let (link, with_error, peer_err, closing) = match ev {
                     Ev::Close { link, with_error, peer_err } => (*link, *with_error, *peer_err, true),
-                    Ev::Detach { link, peer_err } => (*link, false, *peer_err, false),
+                    Ev::Detach { link, peer_err, .. } => (*link, false, *peer_err, false),
                     _ => unreachable!(),
                 };
+                let crossing = matches!(ev, Ev::Detach { crossing: true, .. });
                 let li = match live!(link) {
                     Some(i) => i,
                     None => continue,
@@ -352,6 +359,8 @@ pub async fn run_async(c: &Case, kf_close_open: bool, excluded: &std::cell::Cell
                 let h = links[li].h.take().unwrap();
                 let ph = links[li].peer_handle;
                 let eh = links[li].ep_handle;
+                let is_sender = matches!(h, LinkH::S(_));
+                let lname = links[li].name.clone();
                 let local_err = definitions::Error::new(AmqpError::InternalError, Some("local".to_string()), None);
                 // the local call, type-erased to a debug string of its result
                 let fut: std::pin::Pin<Box<dyn std::future::Future<Output = Result<(), String>> + Send>> = match (h, closing, with_error) {
@@ -383,6 +392,43 @@ pub async fn run_async(c: &Case, kf_close_open: bool, excluded: &std::cell::Cell
                     biased;
                     r = &mut fut => return Err(format!("{what}: the call returned {:?} while the peer was still silent", r)),
                     _ = peer.settle() => {}
+                }
+                if crossing {
+                    // detach and close cross: the peer closes; the endpoint must re-attach and then close
+                    peer.send_frame(my_ch, &Peer::detach_body(ph, true, None), &[]).await?;
+                    let a = tokio::select! {
+                        biased;
+                        r = &mut fut => return Err(format!("{what}: the peer answered the detach with a closing detach; detach() returned {:?} without re-attaching and closing the link", r)),
+                        a = peer.wait_for("attach") => a.map_err(|e| format!("{what}: after the peer's closing answer no re-attach was sent: {e}"))?,
+                    };
+                    if a.field(0) != RValue::str(&lname) {
+                        return Err(format!("{what}: the re-attach names {:?}, the link is {lname}", a.field(0)));
+                    }
+                    let eh2 = as_uint(&a.field(1)).unwrap_or(u32::MAX);
+                    peer.send_frame(my_ch, &Peer::attach_body(&lname, ph, is_sender, None, None, if is_sender { None } else { Some(0) }, None, false), &[]).await?;
+                    let d2 = tokio::select! {
+                        biased;
+                        r = &mut fut => return Err(format!("{what}: detach() returned {:?} after re-attaching but before closing the link", r)),
+                        d = peer.wait_for("detach") => d.map_err(|e| format!("{what}: the re-attached link was not closed: {e}"))?,
+                    };
+                    if as_uint(&d2.field(0)) != Some(eh2) {
+                        return Err(format!("{what}: the detach after the re-attach names handle {:?}, the re-attach used {eh2}", d2.field(0)));
+                    }
+                    if !as_bool(&d2.field(1)).unwrap_or(false) {
+                        return Err(format!("{what}: the peer's closing detach was answered, after the re-attach, with a non-closing detach"));
+                    }
+                    peer.send_frame(my_ch, &Peer::detach_body(ph, true, None), &[]).await?;
+                    match tokio::time::timeout(std::time::Duration::from_secs(30), fut).await {
+                        Err(_) => return Err(format!("{what}: detach() did not return after the crossing close was completed")),
+                        Ok(Ok(())) => return Err(format!("{what}: detach() returned Ok although the peer closed the link")),
+                        Ok(Err(e)) => {
+                            if !e.contains("ClosedByRemote") {
+                                return Err(format!("{what}: detach() failed with {e}, expected ClosedByRemote"));
+                            }
+                        }
+                    }
+                    info.peer_initiated = true;
+                    continue;
                 }
                 peer.send_frame(my_ch, &Peer::detach_body(ph, closing, if peer_err { peer_err_body() } else { None }), &[]).await?;
                 match tokio::time::timeout(std::time::Duration::from_secs(30), fut).await {
